@@ -131,8 +131,15 @@ def eligible(helper: FuncInfo) -> bool:
         if dt.split(".")[-1] not in ("staticmethod", "classmethod"):
             return False
     a = helper.node.args
-    if a.vararg or a.kwarg or a.posonlyargs:
+    if a.vararg:
         return False
+    if a.kwarg is not None:
+        # **kw is fine when the helper only forwards it (`f(…, **kw)`): the caller's extra keywords take its place
+        kw = a.kwarg.arg
+        uses = [n for n in ast.walk(helper.node) if isinstance(n, ast.Name) and n.id == kw]
+        splats = [k.value for c in ast.walk(helper.node) if isinstance(c, ast.Call) for k in c.keywords if k.arg is None and isinstance(k.value, ast.Name) and k.value.id == kw]
+        if len(uses) != len(splats) or any(u not in splats for u in uses):
+            return False
     body = helper.body()
     n = sum(1 for _ in ast.walk(helper.node) if isinstance(_, ast.stmt))
     if n > MAX_HELPER_STMTS:
@@ -210,7 +217,7 @@ class _Rename(ast.NodeTransformer):
 
 
 def _local_names(fn: ast.FunctionDef) -> set[str]:
-    names = {a.arg for a in fn.args.args + fn.args.kwonlyargs}
+    names = {a.arg for a in fn.args.posonlyargs + fn.args.args + fn.args.kwonlyargs}
     for n in walk_no_nested(fn):
         if isinstance(n, ast.Name) and isinstance(n.ctx, ast.Store):
             names.add(n.id)
@@ -223,23 +230,35 @@ def _local_names(fn: ast.FunctionDef) -> set[str]:
 
 def _bind_args(helper: FuncInfo, call: ast.Call, has_receiver: bool):
     a = helper.node.args
-    params = [x.arg for x in a.args]
+    posonly = [x.arg for x in a.posonlyargs]
+    params = posonly + [x.arg for x in a.args]
     if helper.kind in ("method", "class") and params and params[0] in ("self", "cls"):
         params = params[1:] if has_receiver or True else params
     binds: dict[str, ast.expr] = {}
-    if any(isinstance(x, ast.Starred) for x in call.args) or any(k.arg is None for k in call.keywords):
+    extra: list[ast.keyword] = []
+    if any(isinstance(x, ast.Starred) for x in call.args):
+        return None
+    if any(k.arg is None for k in call.keywords) and a.kwarg is None:
         return None
     if len(call.args) > len(params):
         return None
     for p, v in zip(params, call.args):
         binds[p] = v
     for k in call.keywords:
+        if k.arg is None:
+            extra.append(k)  # **mapping at the call site: forwarded wherever the helper forwards its **kw
+            continue
         if k.arg in binds:
             return None
-        if k.arg not in params and k.arg not in [x.arg for x in a.kwonlyargs]:
-            return None
+        if (k.arg not in params or k.arg in posonly) and k.arg not in [x.arg for x in a.kwonlyargs]:
+            if a.kwarg is None:
+                return None
+            extra.append(k)
+            continue
         binds[k.arg] = k.value
-    allp = a.args
+    if a.kwarg is not None:
+        binds["**" + a.kwarg.arg] = extra  # type: ignore[assignment]
+    allp = a.posonlyargs + a.args
     nd = len(a.defaults)
     for i, x in enumerate(allp):
         if x.arg in ("self", "cls") and i == 0 and helper.kind in ("method", "class"):
@@ -280,6 +299,11 @@ class Flattener:
         fn.body = canonical_accumulations(fn.body)
         fn.body = propagate_aliases(fn.body)
         fn.body = collapse_temps(fn.body, fn)
+        fn = beta_reduce_lambdas(fn)
+        fn.body = fold_known_none_tests(fn.body, fn)
+        fn.body = propagate_aliases(fn.body)
+        fn.body = collapse_temps(fn.body, fn)
+        fn.body = slot_tables_to_mappings(fn.body, fn)
         fn = _CanonExpr().visit(fn)
         ast.fix_missing_locations(fn)
         return fn
@@ -431,6 +455,8 @@ class Flattener:
         binds = _bind_args(helper, call, recv is not None)
         if binds is None:
             return None
+        splat = {k[2:]: v for k, v in binds.items() if k.startswith("**")}
+        binds = {k: v for k, v in binds.items() if not k.startswith("**")}
         k = _Counter.fresh()
         prefix = f"_i{k}_"
         hn = copy.deepcopy(helper.node)
@@ -440,6 +466,20 @@ class Flattener:
         body = FuncInfo(helper.name, hn, helper.module, helper.cls, helper.kind).body()
         body, _always = to_single_exit(body, retvar)
         ren = _Rename(mapping, recv)
+        if splat:
+            class _Splat(ast.NodeTransformer):
+                def visit_Call(self, node):
+                    self.generic_visit(node)
+                    new_kw = []
+                    for k in node.keywords:
+                        if k.arg is None and isinstance(k.value, ast.Name) and k.value.id in splat:
+                            new_kw.extend(copy.deepcopy(splat[k.value.id]))
+                        else:
+                            new_kw.append(k)
+                    node.keywords = new_kw
+                    return node
+
+            body = [_Splat().visit(s) for s in body]
         body = [ren.visit(s) for s in body]
         pre: list[ast.stmt] = []
         for p, v in binds.items():
@@ -786,6 +826,180 @@ def _loop_to_comp(lp: ast.For, name: str, as_list: bool):
         comp = ast.ListComp(elt=s.value, generators=[ast.comprehension(target=lp.target, iter=lp.iter, ifs=conds, is_async=0)])
         return ast.Call(func=ast.Name(id="sum", ctx=ast.Load()), args=[comp], keywords=[])
     return None
+
+
+def fold_known_none_tests(stmts: list[ast.stmt], scope: ast.AST) -> list[ast.stmt]:
+    """`p = <something that is certainly not None>` immediately followed by `if p is None: …` (the default-argument
+    idiom of an inlined helper called with an actual argument): the test is decided."""
+    single: dict[str, ast.expr] = {}
+    counts: dict[str, int] = {}
+    for n in ast.walk(scope):
+        if isinstance(n, ast.Name) and isinstance(n.ctx, ast.Store):
+            counts[n.id] = counts.get(n.id, 0) + 1
+    for n in ast.walk(scope):
+        if isinstance(n, ast.Assign) and len(n.targets) == 1 and isinstance(n.targets[0], ast.Name) and counts.get(n.targets[0].id) == 1:
+            single[n.targets[0].id] = n.value
+        elif isinstance(n, ast.AnnAssign) and isinstance(n.target, ast.Name) and n.value is not None and counts.get(n.target.id) == 1:
+            single[n.target.id] = n.value
+
+    def not_none(e, depth=0):
+        if isinstance(e, (ast.List, ast.Tuple, ast.Dict, ast.Set, ast.ListComp, ast.DictComp, ast.SetComp, ast.JoinedStr)):
+            return True
+        if isinstance(e, ast.Constant):
+            return e.value is not None
+        if isinstance(e, ast.Name) and e.id in single and depth < 3:
+            return not_none(single[e.id], depth + 1)
+        return False
+
+    def go(block):
+        out = []
+        for k, st in enumerate(block):
+            for fld in ("body", "orelse", "finalbody"):
+                b = getattr(st, fld, None)
+                if isinstance(b, list) and b and isinstance(b[0], ast.stmt):
+                    setattr(st, fld, go(b) or [ast.Pass()] if fld == "body" else go(b))
+            prev = out[-1] if out else None
+            if (isinstance(st, ast.If) and isinstance(st.test, ast.Compare) and len(st.test.ops) == 1 and isinstance(st.test.ops[0], (ast.Is, ast.IsNot))
+                    and isinstance(st.test.left, ast.Name) and isinstance(st.test.comparators[0], ast.Constant) and st.test.comparators[0].value is None
+                    and isinstance(prev, ast.Assign) and len(prev.targets) == 1 and isinstance(prev.targets[0], ast.Name) and prev.targets[0].id == st.test.left.id
+                    and (not_none(prev.value) or (isinstance(prev.value, ast.Constant) and prev.value.value is None))):
+                holds = isinstance(prev.value, ast.Constant) and prev.value.value is None  # value of `X is None`
+                if isinstance(st.test.ops[0], ast.IsNot):
+                    holds = not holds
+                taken = list(st.body if holds else st.orelse)
+                # `X = None` overwritten right away by the taken arm: the first store is dead
+                if taken and isinstance(taken[0], ast.Assign) and len(taken[0].targets) == 1 and isinstance(taken[0].targets[0], ast.Name) and taken[0].targets[0].id == prev.targets[0].id \
+                        and isinstance(prev.value, ast.Constant) and not any(isinstance(n_, ast.Name) and n_.id == prev.targets[0].id for n_ in ast.walk(taken[0].value)):
+                    out.pop()
+                out.extend(taken)
+                continue
+            out.append(st)
+        return out
+
+    return go(stmts)
+
+
+def slot_tables_to_mappings(stmts: list[ast.stmt], scope: ast.AST) -> list[ast.stmt]:
+    """A dense table of optional entries filled from (index, value) pairs and then walked in order
+
+        T = [None for _ in range(N)]          (or [None] * N)
+        for i, v in zip(I, V): T[i] = v
+        for x in T: if x is None: A  else: B(x)
+
+    is the sparse mapping `M = dict(zip(I, V))` walked as `for k in range(N): if k in M: B(M[k]) else: A`
+    (T used nowhere else).  Both say: slot k carries V[j] where I[j] == k, every other slot is free."""
+    out = list(stmts)
+    i = 0
+    while i + 2 < len(out) + 0:
+        a, b = out[i], out[i + 1]
+        j = i + 2
+        if j >= len(out):
+            break
+        c = out[j]
+        tname = a.targets[0].id if isinstance(a, ast.Assign) and len(a.targets) == 1 and isinstance(a.targets[0], ast.Name) else (a.target.id if isinstance(a, ast.AnnAssign) and isinstance(a.target, ast.Name) and a.value is not None else None)
+        n_expr = None
+        if tname:
+            v = a.value
+            if isinstance(v, ast.ListComp) and isinstance(v.elt, ast.Constant) and v.elt.value is None and len(v.generators) == 1 and not v.generators[0].ifs \
+                    and isinstance(v.generators[0].iter, ast.Call) and norm(v.generators[0].iter.func) == "range" and len(v.generators[0].iter.args) == 1:
+                n_expr = v.generators[0].iter.args[0]
+            elif isinstance(v, ast.BinOp) and isinstance(v.op, ast.Mult) and isinstance(v.left, ast.List) and len(v.left.elts) == 1 and isinstance(v.left.elts[0], ast.Constant) and v.left.elts[0].value is None:
+                n_expr = v.right
+        ok = n_expr is not None
+        if ok:
+            ok = (isinstance(b, ast.For) and not b.orelse and isinstance(b.target, ast.Tuple) and len(b.target.elts) == 2 and all(isinstance(e_, ast.Name) for e_ in b.target.elts)
+                  and isinstance(b.iter, ast.Call) and norm(b.iter.func) == "zip" and len(b.iter.args) == 2 and len(b.body) == 1 and isinstance(b.body[0], ast.Assign)
+                  and norm(b.body[0].targets[0]) == f"{tname}[{b.target.elts[0].id}]" and norm(b.body[0].value) == b.target.elts[1].id)
+        if ok:
+            ok = (isinstance(c, ast.For) and not c.orelse and isinstance(c.target, ast.Name) and norm(c.iter) == tname and len(c.body) == 1 and isinstance(c.body[0], ast.If)
+                  and norm(c.body[0].test) in (f"{c.target.id} is None", f"{c.target.id} is not None"))
+        if ok:
+            uses = sum(1 for n in ast.walk(scope) if isinstance(n, ast.Name) and n.id == tname)
+            ok = uses == 3  # definition, the fill store, the walk
+        if not ok:
+            i += 1
+            continue
+        mname = f"_g{_Counter.fresh()}_map"
+        kname = f"_g{_Counter.fresh()}_slot"
+        iff = c.body[0]
+        free, taken = (iff.body, iff.orelse) if norm(iff.test).endswith("is None") else (iff.orelse, iff.body)
+        xname = c.target.id
+
+        class Sub(ast.NodeTransformer):
+            def visit_Name(self, node):
+                if node.id == xname and isinstance(node.ctx, ast.Load):
+                    return ast.Subscript(value=ast.Name(id=mname, ctx=ast.Load()), slice=ast.Name(id=kname, ctx=ast.Load()), ctx=ast.Load())
+                return node
+
+        taken2 = [Sub().visit(copy.deepcopy(x)) for x in taken] or [ast.Pass()]
+        new_a = ast.Assign(targets=[ast.Name(id=mname, ctx=ast.Store())], value=ast.Call(func=ast.Name(id="dict", ctx=ast.Load()), args=[b.iter], keywords=[]), lineno=a.lineno, col_offset=0)
+        new_loop = ast.For(target=ast.Name(id=kname, ctx=ast.Store()), iter=ast.Call(func=ast.Name(id="range", ctx=ast.Load()), args=[n_expr], keywords=[]),
+                           body=[ast.If(test=ast.Compare(left=ast.Name(id=kname, ctx=ast.Load()), ops=[ast.In()], comparators=[ast.Name(id=mname, ctx=ast.Load())]), body=taken2, orelse=list(free))],
+                           orelse=[], lineno=c.lineno, col_offset=0)
+        for s_ in (new_a, new_loop):
+            ast.fix_missing_locations(s_)
+        out[i:j + 1] = [new_a, new_loop]
+        i += 2
+    return out
+
+
+def beta_reduce_lambdas(fn: ast.FunctionDef) -> ast.FunctionDef:
+    """`f = lambda x: e` bound once, then `f(a)`: the call is `e[x:=a]` (arguments that are names, attributes or
+    constants only, so nothing is evaluated twice or out of order); an unused binding is dropped."""
+    lam: dict[str, ast.Lambda] = {}
+    stores: dict[str, int] = {}
+    for n in ast.walk(fn):
+        if isinstance(n, ast.Name) and isinstance(n.ctx, ast.Store):
+            stores[n.id] = stores.get(n.id, 0) + 1
+    for n in ast.walk(fn):
+        if isinstance(n, ast.Assign) and len(n.targets) == 1 and isinstance(n.targets[0], ast.Name) and isinstance(n.value, ast.Lambda) and stores.get(n.targets[0].id) == 1:
+            a = n.value.args
+            if not (a.vararg or a.kwarg or a.kwonlyargs or a.defaults or a.posonlyargs):
+                lam[n.targets[0].id] = n.value
+    if not lam:
+        return fn
+
+    def simple(e):
+        return isinstance(e, (ast.Name, ast.Constant)) or (isinstance(e, ast.Attribute) and dotted(e) is not None)
+
+    class T(ast.NodeTransformer):
+        def visit_Call(self, node):
+            self.generic_visit(node)
+            if isinstance(node.func, ast.Name) and node.func.id in lam and not node.keywords:
+                L_ = lam[node.func.id]
+                ps = [x.arg for x in L_.args.args]
+                if len(ps) == len(node.args) and all(simple(a_) for a_ in node.args):
+                    mp = dict(zip(ps, node.args))
+
+                    class Sub(ast.NodeTransformer):
+                        def visit_Name(self, n2):
+                            if isinstance(n2.ctx, ast.Load) and n2.id in mp:
+                                return copy.deepcopy(mp[n2.id])
+                            return n2
+
+                    return ast.copy_location(Sub().visit(copy.deepcopy(L_.body)), node)
+            return node
+
+    fn = T().visit(fn)
+    used = {n.id for n in ast.walk(fn) if isinstance(n, ast.Name) and isinstance(n.ctx, ast.Load)}
+
+    def prune(block):
+        out = []
+        for st in block:
+            for fld in ("body", "orelse", "finalbody"):
+                b = getattr(st, fld, None)
+                if isinstance(b, list) and b and isinstance(b[0], ast.stmt):
+                    setattr(st, fld, prune(b) or [ast.Pass()])
+            if isinstance(st, ast.Try):
+                for h in st.handlers:
+                    h.body = prune(h.body) or [ast.Pass()]
+            if isinstance(st, ast.Assign) and len(st.targets) == 1 and isinstance(st.targets[0], ast.Name) and st.targets[0].id in lam and st.targets[0].id not in used:
+                continue
+            out.append(st)
+        return out
+
+    fn.body = prune(fn.body)
+    return fn
 
 
 def collapse_temps(stmts: list[ast.stmt], scope: ast.AST) -> list[ast.stmt]:
